@@ -1,5 +1,5 @@
 #!/usr/bin/env python3
-"""try_mutant.py <patch.diff> <demo.cpp> <out.json> <Cxx> [<Cyy> ...] [--tier quick|thorough] [--demo-flags "..."]
+"""try_mutant.py <patch.diff> <demo.cpp> <out.json> <Cxx> [<Cyy> ...] [--tier quick|thorough] [--demo-flags "..."] [--checks-only]
 
 Confirms a seeded change in a scratch worktree of /repo (never in /repo itself) and runs the named checks against it:
   1. the patch applies to the current HEAD of /repo,
@@ -17,6 +17,8 @@ def main():
     args = sys.argv[1:]
     tier = 'quick'; demo_flags = ''
     if '--tier' in args: i = args.index('--tier'); tier = args[i + 1]; del args[i:i + 2]
+    checks_only = '--checks-only' in args
+    if checks_only: args.remove('--checks-only')
     if '--demo-flags' in args: i = args.index('--demo-flags'); demo_flags = args[i + 1]; del args[i:i + 2]
     patch, demo, out = args[0], args[1], args[2]; checks = args[3:]
     # a notes file next to the demo may carry the exact compile line: "COMPILE: g++ -std=c++11 -DFFSM2_ENABLE_X ... demo.cpp -o demo"
@@ -36,10 +38,11 @@ def main():
         rc, o = sh('git apply --whitespace=nowarn %s' % os.path.abspath(patch), cwd=wt)
         res['applies'] = rc == 0
         if rc: res['apply_output'] = o[-2000:]; json.dump(res, open(out, 'w'), indent=1); print('patch does not apply:\n' + o[-800:]); return 2
-        rc, o = sh('cmake -S . -B _build -G Ninja >/dev/null 2>&1 && cmake --build _build 2>&1 | tail -5 && ./_build/ffsm2_test | tail -3', cwd=wt)
-        res['tests_pass_with_change'] = (rc == 0 and 'Status: SUCCESS' in o); res['tests_output'] = o[-600:]
+        if not checks_only:
+            rc, o = sh('cmake -S . -B _build -G Ninja >/dev/null 2>&1 && cmake --build _build 2>&1 | tail -5 && ./_build/ffsm2_test | tail -3', cwd=wt)
+            res['tests_pass_with_change'] = (rc == 0 and 'Status: SUCCESS' in o); res['tests_output'] = o[-600:]
         # demonstration
-        for label, inc in (('clean', '/repo'), ('changed', wt)):
+        for label, inc in ((() if checks_only else (('clean', '/repo'), ('changed', wt)))):
             exe = '/tmp/demo_%s_%d' % (label, os.getpid())
             cxx = 'clang++' if '--CLANG--' in demo_flags else 'g++'
             rc, o = sh('%s -std=c++14 -ftemplate-depth=2048 %s -I%s/include -I%s/development %s -o %s' % (cxx, demo_flags.replace('--CLANG--', ''), inc, inc, os.path.abspath(demo), exe))
